@@ -6,8 +6,6 @@ Open Scope N_scope.
 
 Definition roundtrips (s : list N) : bool := beqs (decode_uri (encode_uri s)) s.
 (* the codes the decoder handles AFTER percent-2-5: a literal percent followed by such a code does not survive (C17-F1), the earlier ones do *)
-Definition late_codes : list (list N) := map fst (skipn 8 dec_chain).
-Definition early_codes : list (list N) := map fst (firstn 8 dec_chain).
 Lemma percent_is_eighth : nth_error dec_chain 7 = Some ([37;50;53], [37]). Proof. vm_compute. reflexivity. Qed.
 Lemma late_codes_fail : length late_codes = 15%nat /\ forallb (fun c => negb (roundtrips c)) late_codes = true.
 Proof. split; vm_compute; reflexivity. Qed.
